@@ -170,3 +170,23 @@ Proof. exact @mirrored_comparison_gen_mirror. Qed.
 Print Assumptions C09_wrapper_regenerated.
 Print Assumptions C09_wrapper_regenerated_sound.
 Print Assumptions C09_mirror_regenerated.
+
+(* ------------------------------------------------------------------------------------------------------------
+   Extension (store round): FeeField._store_results and the BlockTransactionContext objects / accessors are REGENERATED
+   (tools/translate_store.py -> Gen/StoreGen.v).  Lemmas/StoreGenLemmas.v: after the regenerated store every slot (b, fam)
+   -- the context object that transaction_context(b) / .gtxn_context(i) / .absolute_context(i) / .relative_context(k)
+   return -- holds max_fee / max_fee_unknown of the solver result of ITS OWN key key_of_fam "Fee" fam; nothing else changes. *)
+From Tealer Require Import GraphGen SolverGen RunGen StoreGen RunGenLemmas StoreGenLemmas.
+
+Theorem C09_store_results_regenerated :
+  forall (f : func) (d : gdict feeval) (t : state ctxobj),
+    (forall b, In b (function_blocks f) -> exists c, lookup ctxobj t b = Some c /\ ctx_shape c) ->
+    (forall b fam, In b (function_blocks f) -> In fam all_fams -> bc_get d (key_of_fam "Fee" fam) b <> None) ->
+    exists t', fee_store_results_gen f d t = Some t' /\
+      (forall b, ~ In b (function_blocks f) -> lookup ctxobj t' b = lookup ctxobj t b) /\
+      (forall b c, lookup ctxobj t b = Some c -> ctx_shape c -> exists c', lookup ctxobj t' b = Some c' /\ ctx_shape c') /\
+      (forall b, In b (function_blocks f) -> forall fam, In fam all_fams -> exists v o,
+         bc_get d (key_of_fam "Fee" fam) b = Some v /\ read_slot t b fam = Some o /\ read_slot t' b fam = Some (fee_upd v o)).
+Proof. exact @fee_store_read_back. Qed.
+
+Print Assumptions C09_store_results_regenerated.
